@@ -103,6 +103,15 @@ pub fn run(h: &mut Hist, db: &Db, rep: &mut Report) -> R<()> {
 	let dir = h.dir.path.join("db");
 	let r = pvfsck::check_dir(&dir, &specs, &expect);
 	let what = h.cfg.cols.iter().map(col_kind).collect::<Vec<_>>().join("|");
+	if !r.errors.is_empty() && !h.tainted.is_empty() {
+		// consequences of finding F4 (a postponed transaction overtaken by a writer of the same
+		// key / root): leaked or mismatching slots are expected in exactly these histories
+		rep.count("fsck_runs", 1);
+		return fail(
+			"failure=deferred_commit_reordered_writes;what=fsck",
+			format!("structural check differs from the model in a history where a postponed transaction was overtaken: {}", r.errors[0]),
+		)
+	}
 	report(r, rep, &what)
 }
 
